@@ -11,7 +11,7 @@ import sys
 import z3
 
 from .. import common
-from . import _script, _util as U
+from . import _script, _util as U, _gwin
 
 PID = "C11"
 MOD = "bbverif.checks.c11"
@@ -92,6 +92,8 @@ class Sub(dict):
 
 
 def gen(spec, lv):
+    if spec[0] == "G":
+        return _gwin.gen(spec, lv)
     fi, pos, valid = spec
     cls, slot, lines = FAULTS[fi]
     modes = []
@@ -150,9 +152,19 @@ def main():
     ]
     specs = gen_specs(t, common.seed())
     results = U.run_parallel(_script.run_spec, [(MOD, s) for s in specs])
-    U.collect(rep, results, key_fn=lambda r: FAULTS[r["spec"][0]][0] + "/" + FAULTS[r["spec"][0]][1] + ": " + _script.default_key(r),
+    # grammar sentences enumerated by the solver (bbverif/checks/_gwin.py) that the reference refuses: undeclared names in
+    # every syntactic position of a token window, non-integer modes, values that are not of the loop type
+    gs = _gwin.specs_for(rep, t, "reject")
+    results += U.run_parallel(_gwin.run_gspec, [(MOD, g) for g in gs])
+
+    def fkey(r):
+        if r["spec"][0] == "G":
+            return "G/%s: " % r["spec"][1] + _script.default_key(r)
+        return FAULTS[r["spec"][0]][0] + "/" + FAULTS[r["spec"][0]][1] + ": " + _script.default_key(r)
+
+    U.collect(rep, results, key_fn=fkey,
               replay_fn=_script.replay_src(MOD),
-              sample_fn=lambda r: {"script": r["text"], "paths": r["paths"], "fault": list(FAULTS[r["spec"][0]][:2])})
+              sample_fn=lambda r: {"script": r["text"], "paths": r["paths"], "fault": (["grammar window", r["spec"][1]] if r["spec"][0] == "G" else list(FAULTS[r["spec"][0]][:2]))})
     return rep.finish()
 
 
